@@ -30,12 +30,12 @@ CODE_CONTENT = ['x', 'a b', '*a*', '<b>', 'a`b', '`', '[x](y)', 'a\\b', '&amp;',
                 'f(x)', '"q"', "it's", 'a|b', '$x$', '#', '>', 'x  y']
 DESTS = ['/url', 'http://a.b/c?d=e&f=g', '#frag', 'a_b', '/p(q)r', 'x', '/a%20b', 'mailto:a@b.c', '/u*v*', 'https://x.y/z_w_v',
          '/ä', '/with"quote', "/with'apos"]
-SPACE_DESTS = ['/my url', 'a b c', '/p)q', '']
+SPACE_DESTS = ['/my url', 'a b c', '/p)q', '', ' b ', '  /lead', 'trail  ']
 TITLES = ['', '', '', 't', 'two words', "it's", 'say "hi"', 'a (b) c', 'x&y', '<tag>', 'ä']
 AUTOLINKS = ['ws://h/p', 'im:x', 'a2:b', 'abcdefghijklmnopqrstuvwxyz012345:x', 'http://example.com/a?b=c', 'https://x.y/z_w', 'mailto:a@b.c', 'irc://foo.bar:2233/baz', 'a+b.c-d:e', 'http://a.b/*c*']
 EMAILS = ['a@b.c', 'foo.bar@example.com', 'x+y@z-w.org']
 RAW_INLINE = ['<span class="a">', '</span>', '<br/>', '<!-- c -->', '<b>', '<a href="x" title=\'y\'>', '<?php x ?>', '<![CDATA[ x ]]>',
-              '<i data-x=1>', '<!DOCTYPE x>']
+              '<i data-x=1>', '<!DOCTYPE x>', '<!doctype html>', '<!a>']
 RAW_INLINE_ML = ['<span\nclass="b">', '<!-- two\nlines -->', '<a href="x"\ntitle="y">']     # a tag or comment may run over lines
 ESCAPABLE = list('*_`[]()#<>\\!&"\'-+.{}=$%^,/:;?@')      # no '|' (table cells re-escape pipes), no '~' (finding F42)
 TITLE_ESCAPABLE = ESCAPABLE + ['~']
@@ -51,7 +51,7 @@ CODE_LINES = ['x = 1', '  indented', '', '*not em*', '<b>', '> q', '- l', '    f
 HTML_BLOCKS = [
     (6, ['<div>', 'text *x*', '</div>']), (2, ['<!-- c', '', 'more -->']), (1, ['<pre>', '  a', '', 'b', '</pre>']),
     (6, ['<table><tr><td>', 'x', '</td></tr></table>']), (3, ['<?php echo 1; ?>']), (7, ['<my-tag attr="v">', 'inner']),
-    (4, ['<!DOCTYPE html>']), (5, ['<![CDATA[', 'x', '', ']]>']), (1, ['<script>', 'a < b', '</script>']), (6, ['</section>']),
+    (4, ['<!DOCTYPE html>']), (4, ['<!doctype html>']), (4, ['<!x', 'y>']), (5, ['<![CDATA[', 'x', '', ']]>']), (1, ['<script>', 'a < b', '</script>']), (6, ['</section>']),
     (7, ['</custom>']), (6, ['<p align="x">', '*not emphasis*']), (2, ['<!-- one line -->']), (1, ['<style>p{}</style>']),
     (1, ['<textarea>', '', '</textarea>']), (6, ['<hr />']),
     # tag names are matched in any case
@@ -687,6 +687,9 @@ def plan_labels(c):
                 if 'charref' not in c.exclude:
                     dests += ['/u&amp;v%d%d' % (i, j), '/u&ltx;%d%d' % (i, j), '/u&copyb%d%d' % (i, j), '/q?a=1&amp;amp;b=%d%d' % (i, j)]
                     titles += ['&amp;lt; %d' % j, 'Q&A &copy %d' % j, '&#35;&ouml;&nosuch; %d' % j]
+                    if 'dest_escape' not in c.exclude:
+                        titles += ['x \\&amp; %d' % j, '\\&lt;\\&gt; %d' % j]        # an escaped '&' keeps the reference literal
+                        dests += ['/e\\&amp;%d%d' % (i, j)]
             defs.append({'spelled': respell_label(t, label) if j else (label if t.chance(160) else respell_label(t, label)),
                          'dest': t.choice(dests), 'angle': t.chance(50), 'title': t.choice(titles),
                          'tq': t.choice(['"', "'", '(']), 'order': None,
